@@ -68,6 +68,16 @@ CHECKS = {
         text='LimitOK states bounds (everything entirely inside [start, stop] is returned, nothing entirely outside, order and feature fingerprints preserved, one common offset on reset) rather than one answer; TLC proves them for the model and evaluates them on the real outputs for all small tables x windows on the half-sample grid (either limit None) x reset x centring, and on recorded calls incl. 1-D / 2-D flatten lists.',
         design_ref='6/C18',
         note='window limits are on the half-sample grid with fs a power of two (or 1), so start*fs is exact.'),
+    'C14': dict(
+        technique=TECH + 'model checking of the Session state machine (heap of aliased option dictionaries, objects, histories) incl. a negative control, TLC-generated behaviours replayed on real Bycycle objects, and TLC trace validation (Trace_Session) binding every recorded event to the Session action; group models via Trace_Pool',
+        text='Session.tla: HeapIsIntent, NoStale and OnlyEditsWrite hold for all histories to the depth bound and the pinned tree\'s write-back deviation violates them. Behaviours simulated by TLC from the same specification are replayed on real objects sharing real dictionaries; TLC compares after every action the recorded dictionary contents with the specified heap, the fitted table with the functional analysis for the settings as the user wrote them, recompute_edges(r) with the functional recomputation, attribute access and load; BycycleGroup.models are checked position by position for 2-D / 3-D arrays and every axis mode.',
+        design_ref='6/C14',
+        note='analyses are abstracted to effective-parameter vectors in the model; in the replay equality of analyses is equality of table fingerprints over float limbs; option domain: min_n_cycles absent/2/3 in both dictionaries, two threshold levels, both methods, two signals.'),
+    'C15': dict(
+        technique=TECH + 'the same Session model checking and replay as C14, with functional-API calls (12 functions incl. the group functions and plotting) sharing the signal array, option dictionaries, per-signal option lists and tables; Trace_Session checks argument fingerprints before/after every call and identity of repeated results',
+        text='Call(f, ...) in Session.tla leaves the heap unchanged; for every recorded call TLC requires the recorded dictionary contents to equal the specified heap, the pre- and post-call fingerprints of signal / dictionaries / outer option lists / input table to coincide, and the result fingerprint to equal that of every earlier call of the same function on the same argument values, whatever happened in between (fits, edits, other calls).',
+        design_ref='6/C15',
+        note='functions covered: compute_features, compute_shape_features, compute_burst_features, recompute_edges (with and without bursts), limit_df, epoch_df, drop_samples_df, plot_burst_detect_summary, compute_features_2d (axis 0 and None), compute_features_3d; C16/C18 additionally check untouched inputs of recompute_edges / limit_df / drop_samples_df on the corpus.'),
     'C16': dict(
         technique=TECH + 'exhaustive small-scope stage machine (MC_Edges: features -> Label -> Recompute -> Relabel) with indexed conformance of the real recompute_edges chain, plus trace validation (Trace_Edges) of recompute_edges / Bycycle.recompute_edges on labelled tables of generated signals',
         text='Edge cycles from label transitions, one-sided consistencies as exact rationals (either value in a one-cycle gap), everything else bit-identical, labels = rule on rank codes of the output table, Grows(old,new) and superset under lowered thresholds; TLC proves Grows / only-edges / one-sided >= two-sided for the model on all small tables, compares the real chain on each, and judges every recorded call (same / lowered / changed thresholds, functional and object API, both centrings).',
